@@ -37,7 +37,11 @@ int main(int argc, char **argv) {
       if (res["impl"].asBool()) ++implSame;
     }
     if (!ok) ++bad;
-    if (!ok || all || res.has("emit")) {
+    if (res.has("emit")) {
+      // events for validation by TLC: one line each
+      const vj::Value &evs = res["emit"];
+      for (size_t k = 0; k < evs.size(); ++k) std::cout << evs[k].str() << "\n";
+    } else if (!ok || all) {
       res.set("case", v);
       std::cout << res.str() << "\n";
     }
